@@ -294,7 +294,23 @@ Record step_ok (A : fstate) (sv : srv) (nx : nat) (t : nat) (o : op) (st : optio
   so_used : forall n, In n (fused A') -> In n (fused A) \/ In n res
 }.
 
-Ltac so_tau := constructor; [apply oc_tau| | | | | | |].
+
+Lemma pstep_newid : forall t sv nx k sv' nx' p', pstep t sv nx (NewID k) = Some (sv', nx', p') ->
+  sv' = sv /\ nx' = S nx /\ p' = k nx.
+Proof. intros t sv nx k sv' nx' p' H. cbn [pstep] in H. injection H as <- <- <-. auto. Qed.
+
+Lemma pstep_cmd : forall t sv nx x k sv' nx' p', pstep t sv nx (Cmd x k) = Some (sv', nx', p') ->
+  sv' = fst (srv_cmd clk t (x now) sv) /\ nx' = nx /\ p' = k (snd (srv_cmd clk t (x now) sv)).
+Proof.
+  intros t sv nx x k sv' nx' p' H. cbn [pstep] in H. destruct (srv_cmd clk t (x now) sv) as [s1 r1].
+  injection H as <- <- <-. auto.
+Qed.
+
+Ltac newid_step Hp := apply pstep_newid in Hp; destruct Hp as [-> [-> ->]].
+Ltac cmd_step Hp Esv Ep := apply pstep_cmd in Hp; destruct Hp as [Esv [-> Ep]]; cbn [srv_cmd] in Esv, Ep.
+Ltac cmd_done Esv Ep := cbn [fst snd option_map] in Esv, Ep;
+  match type of Esv with ?a = _ => subst a end; match type of Ep with ?a = _ => subst a end.
+
 
 Lemma local_step : forall A sv nx t o p st res sv' nx' p',
   ginv A sv nx -> op_ok now o -> tshape sv t o p st res ->
@@ -306,7 +322,7 @@ Proof.
   destruct Hsh.
   - (* done *) discriminate.
   - (* Create: NewID *)
-    cbn [rk_create pstep] in Hp. injection Hp as <- <- <-.
+    unfold rk_create in Hp. newid_step Hp.
     exists A, None, [nx]. constructor.
     + apply oc_tau.
     + apply (sh_cr1 sv t k v e 7 nx).
@@ -317,13 +333,13 @@ Proof.
     + intros n [<-|[]]. eapply fresh_nx; eauto.
     + auto.
   - (* Create: SETNX *)
-    rewrite create_loop_S in Hp. cbn [pstep srv_cmd] in Hp.
+    rewrite create_loop_S in Hp. cmd_step Hp Esv Ep.
     cbn [op_clean op_live] in Hc, Hl.
     pose proof (c_find_rel now clk A sv k (g_rel _ _ _ Hg) Hc) as Hf.
     destruct (Hres n (or_introl eq_refl)) as [Hn1 Hn2].
     destruct (s_find clk (rKey k) sv) as [y|] eqn:Ef.
     + (* the key exists: read it *)
-      injection Hp as <- <- <-. exists A, None, [n]. constructor.
+      cmd_done Esv Ep. exists A, None, [n]. constructor.
       * apply oc_tau.
       * apply sh_cr2.
       * exact Hg.
@@ -333,9 +349,9 @@ Proof.
       * intros m Hm. apply Hres. exact Hm.
       * auto.
     + (* created *)
-      injection Hp as <- <- <-. destruct (ffind now k A) as [r0|] eqn:EA; [contradiction|].
+      cmd_done Esv Ep. destruct (ffind now k A) as [r0|] eqn:EA; [contradiction|].
       exists (fwrite k v e n A), (Some (OVer n)), []. constructor.
-      * apply oc_lin; [reflexivity|]. apply (acc_one A _ _ _ n eq_refl Hn2). cbn [fstep hd]. rewrite EA. reflexivity.
+      * apply oc_lin; [reflexivity|]. eapply (acc_one A _ _ _ n); [reflexivity|exact Hn2|]. cbn [fstep hd]. rewrite EA. reflexivity.
       * apply sh_done.
       * apply ginv_write; assumption.
       * lia.
@@ -344,15 +360,15 @@ Proof.
       * intros m [].
       * cbn [fwrite fused]. intros m [<-|Hm]; [right; left; reflexivity|left; exact Hm].
   - (* Create: GET after a failed SETNX *)
-    unfold create_get, get_prog in Hp. cbn [pstep srv_cmd] in Hp.
+    unfold create_get, get_prog in Hp. cmd_step Hp Esv Ep.
     cbn [op_clean op_live] in Hc, Hl.
     pose proof (c_find_rel now clk A sv k (g_rel _ _ _ Hg) Hc) as Hf.
     destruct (Hres n (or_introl eq_refl)) as [Hn1 Hn2].
-    destruct (s_find clk (rKey k) sv) as [y|] eqn:Ef; cbn [option_map] in Hp.
-    + injection Hp as <- <- <-. destruct (ffind now k A) as [r0|] eqn:EA; [|contradiction].
+    destruct (s_find clk (rKey k) sv) as [y|] eqn:Ef.
+    + cmd_done Esv Ep. destruct (ffind now k A) as [r0|] eqn:EA; [|contradiction].
       destruct Hf as [_ Hpl]. rewrite Hpl. cbn [pl_orec p_val p_ver p_exp].
       exists A, (Some (OExist (ver r0))), []. constructor.
-      * apply oc_lin; [reflexivity|]. apply (acc_one A _ _ _ n eq_refl Hn2). cbn [fstep]. rewrite EA. reflexivity.
+      * apply oc_lin; [reflexivity|]. eapply (acc_one A _ _ _ n); [reflexivity|exact Hn2|]. cbn [fstep]. rewrite EA. reflexivity.
       * apply sh_done.
       * exact Hg.
       * lia.
@@ -360,7 +376,7 @@ Proof.
       * constructor.
       * intros m [].
       * auto.
-    + injection Hp as <- <- <-. destruct f as [|f].
+    + cmd_done Esv Ep. destruct f as [|f].
       * (* out of fuel *)
         exists A, (Some OFuel), []. constructor.
         -- apply oc_lin; [reflexivity|]. right. auto.
@@ -381,9 +397,9 @@ Proof.
         -- intros m Hm. apply Hres. exact Hm.
         -- auto.
   - (* Get *)
-    unfold rk_get, get_prog in Hp. cbn [pstep srv_cmd] in Hp. cbn [op_clean] in Hc.
+    unfold rk_get, get_prog in Hp. cmd_step Hp Esv Ep. cbn [op_clean] in Hc.
     pose proof (c_find_rel now clk A sv k (g_rel _ _ _ Hg) Hc) as Hf.
-    destruct (s_find clk (rKey k) sv) as [y|] eqn:Ef; cbn [option_map] in Hp; injection Hp as <- <- <-;
+    destruct (s_find clk (rKey k) sv) as [y|] eqn:Ef; cmd_done Esv Ep;
       destruct (ffind now k A) as [r0|] eqn:EA; try contradiction.
     + destruct Hf as [_ Hpl]. rewrite Hpl. cbn [pl_orec p_val p_ver p_exp].
       exists A, (Some (ORec (as_orec k r0))), []. constructor.
@@ -405,8 +421,9 @@ Proof.
       * intros m [].
       * auto.
   - (* GetMany *)
-    unfold mget_prog in Hp. cbn [pstep] in Hp. change (map rKey (k :: ks)) with (rKey k :: map rKey ks) in Hp.
-    cbn [srv_cmd] in Hp. injection Hp as <- <- <-. cbn [op_clean] in Hc.
+    unfold mget_prog in Hp. apply pstep_cmd in Hp. destruct Hp as [Esv [-> Ep]].
+    change (map rKey (k :: ks)) with (rKey k :: map rKey ks) in Esv, Ep.
+    cbn [srv_cmd] in Esv, Ep. cmd_done Esv Ep. cbn [op_clean] in Hc.
     change (rKey k :: map rKey ks) with (map rKey (k :: ks)).
     rewrite (c_zip_rel now clk A sv (k :: ks) (g_rel _ _ _ Hg) Hc).
     eexists A, (Some _), []. constructor.
@@ -419,7 +436,7 @@ Proof.
     + intros m [].
     + auto.
   - (* Put: NewID *)
-    rewrite rk_put_eq in Hp. cbn [pstep] in Hp. injection Hp as <- <- <-.
+    rewrite rk_put_eq in Hp. newid_step Hp.
     exists A, None, [nx]. constructor.
     + apply oc_tau.
     + apply sh_put1.
@@ -430,10 +447,10 @@ Proof.
     + intros n [<-|[]]. eapply fresh_nx; eauto.
     + auto.
   - (* Put: SET *)
-    unfold put_set in Hp. cbn [pstep srv_cmd] in Hp. injection Hp as <- <- <-.
+    unfold put_set in Hp. cmd_step Hp Esv Ep. cmd_done Esv Ep.
     cbn [op_clean op_live] in Hc, Hl. destruct (Hres n (or_introl eq_refl)) as [Hn1 Hn2].
     exists (fwrite k v e n A), (Some (ORec (k, v, n, e))), []. constructor.
-    + apply oc_lin; [reflexivity|]. apply (acc_one A _ _ _ n eq_refl Hn2). reflexivity.
+    + apply oc_lin; [reflexivity|]. eapply (acc_one A _ _ _ n); [reflexivity|exact Hn2|]. reflexivity.
     + apply sh_done.
     + apply ginv_write; assumption.
     + lia.
@@ -442,7 +459,7 @@ Proof.
     + intros m [].
     + cbn [fwrite fused]. intros m [<-|Hm]; [right; left; reflexivity|left; exact Hm].
   - (* PutMany: NewID *)
-    unfold pm_newid in Hp. cbn [pstep] in Hp. injection Hp as <- <- <-.
+    unfold pm_newid in Hp. newid_step Hp.
     assert (Hacc : (rKey k, mkPl k v nx None) :: rev (mset_of pre ns) = rev (mset_of (pre ++ [(k, v, None)]) (ns ++ [nx]))).
     { rewrite mset_of_app by assumption. cbn [mset_of]. rewrite rev_app_distr. reflexivity. }
     assert (Hnd' : NoDup (ns ++ [nx])).
@@ -464,21 +481,31 @@ Proof.
       destruct (mset_of rs (ns ++ [nx])) as [|x l] eqn:Em.
       { exfalso. rewrite Hrs in Em. rewrite mset_of_app in Em by assumption. cbn [mset_of] in Em.
         destruct (mset_of pre ns); discriminate. }
-      exists A, None, (ns ++ [nx]). constructor; auto.
+      exists A, None, (ns ++ [nx]). constructor.
       * apply oc_tau.
       * cbn [pm_k]. apply (sh_pm1 sv t rs (ns ++ [nx]) x l Hlen Em).
+      * exact Hg'.
       * lia.
+      * exact Hres'.
+      * exact Hnd'.
+      * exact Hfr.
+      * auto.
     + (* the next record: it has no expiration either *)
       assert (He2 : e2 = None).
       { cbn [op_live] in Hl. rewrite Hrs in Hl. apply Forall_app in Hl. destruct Hl as [_ Hl].
-        inversion Hl as [|? ? H0 _]. exact H0. }
+        inversion Hl as [|? ? Hnone _]. exact Hnone. }
       subst e2. cbn [mset_args].
-      exists A, None, (ns ++ [nx]). constructor; auto.
+      exists A, None, (ns ++ [nx]). constructor.
       * apply oc_tau.
       * apply (sh_pm0 sv t rs (pre ++ [(k, v, None)]) k2 v2 suf2 (ns ++ [nx]) Hrs Hlen).
+      * exact Hg'.
       * lia.
+      * exact Hres'.
+      * exact Hnd'.
+      * exact Hfr.
+      * auto.
   - (* PutMany: MSET *)
-    unfold pm_mset in Hp. cbn [pstep srv_cmd] in Hp. injection Hp as <- <- <-.
+    unfold pm_mset in Hp. cmd_step Hp Esv Ep. cmd_done Esv Ep.
     cbn [op_clean op_live] in Hc, Hl. rewrite <- H0.
     exists (fput_many rs ns A), (Some OOk), []. constructor.
     + apply oc_lin; [reflexivity|]. left. split; [cbn; lia|]. exists ns. split; [|reflexivity].
@@ -492,7 +519,7 @@ Proof.
     + rewrite fused_fput_many by exact H. intros m Hm. apply in_app_or in Hm.
       destruct Hm as [Hm|Hm]; [right; apply in_rev; exact Hm|left; exact Hm].
   - (* CasByVersion: WATCH *)
-    rewrite cas_loop_S in Hp. cbn [pstep srv_cmd] in Hp. injection Hp as <- <- <-.
+    rewrite cas_loop_S in Hp. cmd_step Hp Esv Ep. cmd_done Esv Ep.
     exists A, None, []. constructor.
     + apply oc_tau.
     + apply sh_cas1. right. cbn [watches]. apply watching_add_same.
@@ -503,7 +530,7 @@ Proof.
     + intros m [].
     + auto.
   - (* CasByVersion: GET *)
-    unfold cas_get in Hp. cbn [pstep srv_cmd] in Hp. injection Hp as <- <- <-.
+    unfold cas_get in Hp. cmd_step Hp Esv Ep. cmd_done Esv Ep.
     cbn [op_clean op_live] in Hc, Hl.
     pose proof (c_find_rel now clk A sv k (g_rel _ _ _ Hg) Hc) as Hf.
     destruct (s_find clk (rKey k) sv) as [y|] eqn:Ef; cbn [option_map];
@@ -520,7 +547,7 @@ Proof.
         -- intros m [].
         -- auto.
       * exists A, (Some OConflict), []. constructor.
-        -- apply oc_lin; [reflexivity|]. apply (acc_one A _ _ _ nx eq_refl (fresh_nx _ _ _ Hg)).
+        -- apply oc_lin; [reflexivity|]. eapply (acc_one A _ _ _ nx); [reflexivity|exact (fresh_nx _ _ _ Hg)|].
            cbn [fstep]. rewrite EA. rewrite Hpl in Ev. cbn [p_ver] in Ev. rewrite Ev. reflexivity.
         -- apply sh_cas5.
         -- exact Hg.
@@ -530,7 +557,7 @@ Proof.
         -- intros m [].
         -- auto.
     + exists A, (Some ONotExist), []. constructor.
-      * apply oc_lin; [reflexivity|]. apply (acc_one A _ _ _ nx eq_refl (fresh_nx _ _ _ Hg)).
+      * apply oc_lin; [reflexivity|]. eapply (acc_one A _ _ _ nx); [reflexivity|exact (fresh_nx _ _ _ Hg)|].
         cbn [fstep]. rewrite EA. reflexivity.
       * apply sh_cas5.
       * exact Hg.
@@ -540,7 +567,7 @@ Proof.
       * intros m [].
       * auto.
   - (* CasByVersion: NewID *)
-    unfold cas_newid in Hp. cbn [pstep] in Hp. injection Hp as <- <- <-.
+    unfold cas_newid in Hp. newid_step Hp.
     exists A, None, [nx]. constructor.
     + apply oc_tau.
     + apply (sh_cas3 sv t k v e x f y nx); assumption.
@@ -551,11 +578,11 @@ Proof.
     + intros m [<-|[]]. eapply fresh_nx; eauto.
     + auto.
   - (* CasByVersion: EXEC *)
-    unfold cas_exec in Hp. cbn [pstep srv_cmd] in Hp.
+    unfold cas_exec in Hp. cmd_step Hp Esv Ep.
     cbn [op_clean op_live] in Hc, Hl. destruct (Hres n (or_introl eq_refl)) as [Hn1 Hn2].
     destruct (conn_dirty t (watches sv)) eqn:Ed.
     + (* refused *)
-      injection Hp as <- <- <-. exists A, None, []. constructor.
+      cmd_done Esv Ep. exists A, None, []. constructor.
       * apply oc_tau.
       * apply sh_cas4f.
       * eapply ginv_store; [exact Hg|reflexivity|lia].
@@ -565,13 +592,13 @@ Proof.
       * intros m [].
       * auto.
     + (* executed: the entry read by GET is still the stored one *)
-      injection Hp as <- <- <-. destruct H as [H|[_ Hlk]]; [congruence|].
+      cmd_done Esv Ep. destruct H as [H|[_ Hlk]]; [congruence|].
       pose proof (c_find_rel now clk A sv k (g_rel _ _ _ Hg) Hc) as Hf. unfold s_find in Hf. rewrite Hlk in Hf.
       destruct (ffind now k A) as [r0|] eqn:EA; [|destruct (dead clk y); [discriminate|contradiction]].
       destruct (dead clk y); [contradiction|]. destruct Hf as [_ Hpl].
       assert (Hv : ver r0 = x) by (rewrite Hpl in H0; exact H0).
       exists (fwrite k v e n A), (Some (ORec (k, v, n, e))), []. constructor.
-      * apply oc_lin; [reflexivity|]. apply (acc_one A _ _ _ n eq_refl Hn2).
+      * apply oc_lin; [reflexivity|]. eapply (acc_one A _ _ _ n); [reflexivity|exact Hn2|].
         cbn [fstep hd]. rewrite EA, Hv, Nat.eqb_refl. reflexivity.
       * apply sh_cas4k.
       * eapply ginv_store; [apply (ginv_write A sv nx k v e n Hg Hc Hl Hn1 Hn2)|reflexivity|lia].
@@ -581,7 +608,7 @@ Proof.
       * intros m [].
       * cbn [fwrite fused]. intros m [<-|Hm]; [right; left; reflexivity|left; exact Hm].
   - (* CasByVersion: UNWATCH after a refused EXEC *)
-    unfold cas_unwatch in Hp. cbn [pstep srv_cmd] in Hp. injection Hp as <- <- <-.
+    unfold cas_unwatch in Hp. cmd_step Hp Esv Ep. cmd_done Esv Ep.
     destruct f as [|f].
     + exists A, (Some OFuel), []. constructor.
       * apply oc_lin; [reflexivity|]. right. auto.
@@ -602,7 +629,7 @@ Proof.
       * intros m [].
       * auto.
   - (* CasByVersion: UNWATCH after the EXEC that took effect *)
-    unfold cas_unwatch in Hp. cbn [pstep srv_cmd] in Hp. injection Hp as <- <- <-.
+    unfold cas_unwatch in Hp. cmd_step Hp Esv Ep. cmd_done Esv Ep.
     exists A, (Some (ORec (k, v, n, e))), []. constructor.
     + apply oc_tau.
     + apply sh_done.
@@ -613,7 +640,7 @@ Proof.
     + intros m [].
     + auto.
   - (* CasByVersion: UNWATCH after ErrNotExist / ErrConflict *)
-    unfold cas_fail in Hp. cbn [pstep srv_cmd] in Hp. injection Hp as <- <- <-.
+    unfold cas_fail in Hp. cmd_step Hp Esv Ep. cmd_done Esv Ep.
     exists A, (Some r), []. constructor.
     + apply oc_tau.
     + apply sh_done.
@@ -624,9 +651,9 @@ Proof.
     + intros m [].
     + auto.
   - (* Delete *)
-    unfold rk_delete in Hp. cbn [pstep srv_cmd] in Hp. cbn [op_clean] in Hc.
+    unfold rk_delete in Hp. cmd_step Hp Esv Ep. cbn [op_clean] in Hc.
     pose proof (c_find_rel now clk A sv k (g_rel _ _ _ Hg) Hc) as Hf.
-    destruct (s_find clk (rKey k) sv) as [y|] eqn:Ef; injection Hp as <- <- <-;
+    destruct (s_find clk (rKey k) sv) as [y|] eqn:Ef; cmd_done Esv Ep;
       destruct (ffind now k A) as [r0|] eqn:EA; try contradiction.
     + exists (mkF (remove k (frecs A)) (fused A)), (Some OOk), []. constructor.
       * apply oc_lin; [reflexivity|]. left. split; [cbn; lia|]. exists []. split.
@@ -649,8 +676,11 @@ Proof.
       * intros m [].
       * auto.
   - (* ListKeys *)
-    unfold rk_listkeys in Hp. cbn [pstep srv_cmd] in Hp. injection Hp as <- <- <-. cbn [op_clean] in Hc.
-    rewrite (c_scan_rel now clk _ _ p (g_rel _ _ _ Hg) Hc).
+    unfold rk_listkeys in Hp. cmd_step Hp Esv Ep. cmd_done Esv Ep. cbn [op_clean] in Hc.
+    cbn beta iota. pose proof (c_scan_rel now clk _ _ p (g_rel _ _ _ Hg) Hc) as Hsc.
+    match goal with |- context [OKeys ?X] =>
+      replace X with (map fst (filter (fun kr => negb (expired now (snd kr)) && matches p (fst kr)) (frecs A)))
+        by (symmetry; exact Hsc) end.
     eexists A, (Some _), []. constructor.
     + apply oc_lin; [reflexivity|]. apply acc_read; [reflexivity|]. cbn [fstep]. reflexivity.
     + apply sh_done.
@@ -764,13 +794,14 @@ Proof.
           destruct (So8 n Hin) as [Hin'|Hin']; [exact (H2 Hin')|exact (Hdj u t n Hne Hn Hin')].
       - intros u. destruct (Nat.eqb u t); [exact So6|apply Hnd].
       - intros u u' n Hne Hn Hn'.
-        destruct (Nat.eqb_spec u t) as [->|Hu], (Nat.eqb_spec u' t) as [->|Hu']; try contradiction.
+        destruct (Nat.eqb_spec u t) as [->|Hv], (Nat.eqb_spec u' t) as [->|Hv']; try contradiction.
         + destruct (So5 n Hn) as [Hin|[-> _]]; [exact (Hdj t u' n Hne Hin Hn')|].
           destruct (Hrs u' _ Hn'). lia.
         + destruct (So5 n Hn') as [Hin|[-> _]]; [exact (Hdj u t n Hne Hn Hin)|].
           destruct (Hrs u _ Hn). lia.
         + exact (Hdj u u' n Hne Hn Hn'). }
-    inversion Ht as [| |? ? ? Hok Hsh Hy|? ? ? r id Hok Hsh Hy]; subst.
+    inversion Ht as [| |? ? ? Hok Hsh|? ? ? r id Hok Hsh]; subst;
+      match goal with H : _ = threads y t |- _ => rename H into Hy end.
     + (* not linearised yet *)
       destruct (Hstep None Hok Hsh) as [A' [st' [res' So]]]. pose proof So as [So1 So2 _ _ _ _ _ _].
       inversion So1 as [|r A'' _ Hacc]; subst.
@@ -793,7 +824,8 @@ Proof.
   - (* response *)
     cbn [zstep] in Hs. pose proof (Hth t) as Ht. destruct (z_thr z t) as [| |inv o p] eqn:Et; try discriminate.
     destruct p as [r| |]; try discriminate. injection Hs as <-.
-    inversion Ht as [| |? ? ? Hok Hsh Hy|? ? ? r0 id Hok Hsh Hy]; subst.
+    inversion Ht as [| |? ? ? Hok Hsh|? ? ? r0 id Hok Hsh]; subst;
+      match goal with H : _ = threads y t |- _ => rename H into Hy end.
     + destruct (tshape_ret _ _ _ _ _ _ Hsh) as [Hn _]. discriminate.
     + destruct (tshape_ret _ _ _ _ _ _ Hsh) as [Hr0 Hres0]. injection Hr0 as ->.
       exists (XE (ERet t)). eexists. split; [apply x_base; eapply s_ret; symmetry; eassumption|].
@@ -828,3 +860,64 @@ Proof.
 Qed.
 
 End Proof.
+
+(** ** the statement without [OFuel] *)
+Theorem redis_linearizable : forall now clk tr z,
+  zrun rk_prog now clk z_init tr = Some z -> Forall (label_ok now) tr -> zquiescent z ->
+  (forall x, In x (z_done z) -> o_res x <> OFuel) ->
+  linearizable kvf_acc (finit, now) (z_done z).
+Proof.
+  intros now clk tr z Hr Hl Hq Hf.
+  apply (linearizable_restrict kvf_acc_fuel (fun x => o_res x <> OFuel) kvf_acc).
+  - intros s x s' Hg [H|[H _]]; [exact H|contradiction].
+  - exact Hf.
+  - eapply redis_linearizable_fuel; eauto.
+Qed.
+
+(** the consequences for the Redis client, through linearizability *)
+Corollary redis_cas_once : forall now clk tr z n,
+  zrun rk_prog now clk z_init tr = Some z -> Forall (label_ok now) tr -> zquiescent z ->
+  (forall x, In x (z_done z) -> o_res x <> OFuel) ->
+  length (filter (cas_ok n) (z_done z)) <= 1.
+Proof.
+  intros now clk tr z n Hr Hl Hq Hf.
+  apply (concurrent_cas_once (finit, now)); [apply finv_init|]. eapply redis_linearizable; eauto.
+Qed.
+
+(** ** a checkable form of quiescence: the threads a trace mentions are idle at its end *)
+Lemma zstep_other : forall prog_of now clk z l z' u, zstep prog_of now clk z l = Some z' ->
+  u <> label_thread l -> z_thr z' u = z_thr z u.
+Proof.
+  intros prog_of now clk z l z' u H Hne.
+  assert (Hu : forall x, zupd (z_thr z) (label_thread l) x u = z_thr z u).
+  { intros x. unfold zupd. apply Nat.eqb_neq in Hne. rewrite Hne. reflexivity. }
+  destruct l as [t o|t|t|t]; cbn [zstep label_thread] in *.
+  - destruct (z_thr z t); try discriminate. injection H as <-. apply Hu.
+  - destruct (z_thr z t); try discriminate. injection H as <-. apply Hu.
+  - destruct (z_thr z t) as [| |inv o p]; try discriminate. destruct p; try discriminate.
+    + injection H as <-. apply Hu.
+    + destruct (srv_cmd clk t (c now) (z_srv z)). injection H as <-. apply Hu.
+  - destruct (z_thr z t) as [| |inv o p]; try discriminate. destruct p; try discriminate.
+    injection H as <-. apply Hu.
+Qed.
+
+Lemma zrun_other : forall prog_of now clk tr z z' u, zrun prog_of now clk z tr = Some z' ->
+  (forall l, In l tr -> u <> label_thread l) -> z_thr z' u = z_thr z u.
+Proof.
+  induction tr as [|l tr IH]; intros z z' u H Hu; cbn [zrun] in H.
+  - injection H as <-. reflexivity.
+  - destruct (zstep prog_of now clk z l) as [z1|] eqn:E; [|discriminate].
+    rewrite (IH z1 z' u H (fun l' Hl' => Hu l' (or_intror Hl'))).
+    eapply zstep_other; [exact E|]. apply Hu. left. reflexivity.
+Qed.
+
+Lemma zquiet_ok : forall prog_of now clk tr z, zrun prog_of now clk z_init tr = Some z ->
+  zquiet tr z = true -> zquiescent z.
+Proof.
+  intros prog_of now clk tr z Hr Hq u. unfold zquiet in Hq. rewrite forallb_forall in Hq.
+  destruct (in_dec Nat.eq_dec u (map label_thread tr)) as [Hin|Hnin].
+  - apply in_map_iff in Hin. destruct Hin as [l [<- Hl]]. specialize (Hq l Hl).
+    destruct (z_thr z (label_thread l)); [reflexivity|discriminate|discriminate].
+  - rewrite (zrun_other prog_of now clk tr z_init z u Hr); [reflexivity|].
+    intros l Hl E. apply Hnin. apply in_map_iff. exists l. auto.
+Qed.
